@@ -260,7 +260,102 @@ class C18Check(object):
             field, values = r.choice(MUTABLE_FIELDS)
             add({"t": "set_global", "field": field, "value": r.choice(values)})
 
+        def fmm_op(params=None, same_as=None):
+            """An FMM-mode operator on spaces of the bundle (optionally the spaces of an earlier one)."""
+            nonlocal nops
+            cands = [sp for sp in b["ops"] if sp["family"] != "sparse"]
+            if not cands:
+                return None
+            spec = copy.deepcopy(r.choice(cands))
+            dk, tk = _admissible(spec, b["kinds"])
+            if not dk or not tk:
+                return None
+            if same_as is not None:
+                di, ti = same_as
+                if space_kinds[di][0] not in dk or space_kinds[ti][0] not in tk:
+                    di = find_space(dk, 0)
+                    ti = find_space(tk, 0)
+            else:
+                di = find_space(dk, 0)
+                ti = di if (space_kinds[di][0] in tk and r.random() < 0.6) else find_space(tk, 0)
+            add({"t": "create_op", "spec": spec, "dom": di, "dual": ti, "assembler": "fmm", "precision": None, "params": params})
+            nops += 1
+            return nops - 1, (di, ti)
+
+        def scripted():
+            """Sequences that rare history bugs need (bias, cf. 'place faults inside operations')."""
+            nonlocal npots
+            kind = r.choice(["fmm_order_change", "fmm_explicit", "pot_pair", "clear_reuse", "mass_order", "peer_retry", "fmm_other_field"])
+            if kind in ("fmm_order_change", "fmm_other_field"):
+                a = fmm_op()
+                if a is None:
+                    return
+                add({"t": "weak_form", "op": a[0]})
+                if kind == "fmm_order_change":
+                    add({"t": "set_global", "field": "quadrature.regular", "value": r.choice([2, 3, 5, 6])})
+                else:
+                    f, vals = r.choice(MUTABLE_FIELDS[2:])
+                    add({"t": "set_global", "field": f, "value": r.choice(vals)})
+                bb = fmm_op(same_as=a[1])
+                if bb is not None:
+                    add({"t": r.choice(["weak_form", "matvec"]), "op": bb[0], "vseed": r.randrange(1 << 30)})
+                add({"t": "matvec", "op": a[0], "vseed": r.randrange(1 << 30), "complex": r.random() < 0.3})
+            elif kind == "fmm_explicit":
+                a = fmm_op(params=r.randrange(3))
+                if a is None:
+                    return
+                if r.random() < 0.5:
+                    add({"t": "set_global", "field": "quadrature.regular", "value": r.choice([2, 3, 4, 5])})
+                add({"t": r.choice(["weak_form", "strong_form", "matvec"]), "op": a[0], "vseed": r.randrange(1 << 30)})
+            elif kind == "pot_pair":
+                if b.get("pot") is None:
+                    return
+                new_pot()
+                if ops[-1]["t"] != "create_pot":
+                    return
+                first = dict(ops[-1])
+                ops[-1]["assembler"] = "fmm"
+                add({"t": "evaluate", "pot": npots - 1, "vseed": r.randrange(1 << 30), "complex": r.random() < 0.3})
+                add({"t": "set_global", "field": r.choice(["quadrature.regular", "fmm.expansion_order"]), "value": r.choice([3, 5, 6])})
+                second = {k: v for k, v in first.items() if k != "c"}
+                second["assembler"] = "fmm"
+                second["params"] = r.choice([None, r.randrange(3)])
+                add(second)
+                npots += 1
+                add({"t": "evaluate", "pot": npots - 1, "vseed": r.randrange(1 << 30)})
+                add({"t": "evaluate", "pot": npots - 2, "vseed": r.randrange(1 << 30)})
+            elif kind == "clear_reuse":
+                a = fmm_op()
+                if a is None:
+                    return
+                add({"t": "weak_form", "op": a[0]})
+                add({"t": "clear_fmm_cache"})
+                add({"t": "matvec", "op": a[0], "vseed": r.randrange(1 << 30)})
+                bb = fmm_op(same_as=a[1])
+                if bb is not None:
+                    add({"t": "weak_form", "op": bb[0]})
+            elif kind == "mass_order":
+                add({"t": "set_global", "field": "quadrature.regular", "value": r.choice([1, 1, 2])})
+                si = r.randrange(max(1, nspaces))
+                add({"t": "mass_matrix", "space": si})
+                add({"t": "set_global", "field": "quadrature.regular", "value": r.choice([3, 4, 5])})
+                new_op()
+                add({"t": "strong_form", "op": max(0, nops - 1)})
+                add({"t": "mass_matrix", "space": si})
+            elif kind == "peer_retry":
+                if not enable["F3"]:
+                    return
+                add({"t": "arm_peer_fault", "what": r.choice(["setup", "evaluate"]), "n": 1})
+                a = fmm_op()
+                if a is None:
+                    return
+                add({"t": "weak_form", "op": a[0]})
+                add({"t": "weak_form", "op": a[0]})
+                add({"t": "matvec", "op": a[0], "vseed": r.randrange(1 << 30)})
+
         new_op()
+        if r.random() < 0.5:
+            scripted()
         while len(ops) < length:
             roll = r.random()
             if nops == 0 or roll < 0.16:
@@ -292,6 +387,8 @@ class C18Check(object):
             else:
                 if enable["F3"]:
                     add({"t": "arm_peer_fault", "what": r.choice(["setup", "evaluate", "evaluate"]), "n": r.choice([1, 1, 2, 5])})
+            if r.random() < 0.04:
+                scripted()
         case["ops"] = ops
         return case
 
